@@ -363,6 +363,7 @@ Proof.
   - cbn in Ht. destruct (inst0 c) eqn:E; [|discriminate]. cbn in Ht. inversion Ht; subst. exact Hi.
   - cbn in Ht. inversion Ht; subst. exact Hi.
   - cbn in Ht. inversion Ht; subst. exact Hi.
+  - cbn in Ht. discriminate.
 Qed.
 
 Lemma good_obj_spec o : good_obj o = true -> exists v f, tli o = Ok (Some v) /\ inst v = Ok f.
@@ -1042,9 +1043,10 @@ Section DeclProofs.
   Definition eq_immutable (eq : option pyval) : bool :=
     match eq with Some d => negb (is_mutable_default d) | None => true end.
 
-  Lemma eq_default_immutable path f eq : eq_immutable eq = true -> eq_default path f None eq = eq_simple f eq.
+  Lemma eq_default_immutable path f eq :
+    path <> PathFunc -> eq_immutable eq = true -> eq_default path f None eq = eq_simple f eq.
   Proof.
-    destruct eq as [d|]; [|reflexivity]. cbn [eq_immutable]. intros Hm. apply negb_true_iff in Hm.
+    intros Hp. destruct eq as [d|]; [|reflexivity]. cbn [eq_immutable]. intros Hm. apply negb_true_iff in Hm.
     unfold Spelling.eq_default, eq_simple, apply_default. rewrite Hm.
     destruct path.
     - destruct (init_validates d) eqn:Hv.
@@ -1054,10 +1056,23 @@ Section DeclProofs.
         rewrite (init_validates_truthy d Ht) in Hv. discriminate.
     - destruct (try_default re_match e f d) as [[]|x]; reflexivity.
     - reflexivity.
+    - congruence.
   Qed.
 
+  Lemma decl_path_nofunc o : is_func_obj o = false -> decl_path_of o <> PathFunc.
+  Proof.
+    destruct o; cbn [is_func_obj decl_path_of]; try discriminate; intros _;
+      match goal with |- context [tli ?x] => destruct (tli x) as [[[c|g]|]|y] end; discriminate.
+  Qed.
+
+  Lemma annot_obj_nofunc o : is_func_obj o = false -> annot_obj o = tli_f o.
+  Proof. destruct o; try reflexivity. discriminate. Qed.
+
+  Lemma fieldy_nofunc s : fieldy s = true -> is_func s = false.
+  Proof. unfold fieldy, is_func. destruct (pyeval s) as [o|x]; [|reflexivity]. destruct o; cbn; congruence. Qed.
+
   Lemma decl_annot_form d :
-    d_annot d = true -> d_kw d = None -> eq_immutable (d_eq d) = true ->
+    d_annot d = true -> d_kw d = None -> eq_immutable (d_eq d) = true -> is_func (d_ty d) = false ->
     decl_result d =
     (r <- convert_opt (d_ty d) ;;
      match r with
@@ -1066,13 +1081,13 @@ Section DeclProofs.
                  Ok (Some (mk_fres d f dv (d_opt d || marks_optional (d_ty d))))
      end).
   Proof.
-    intros Ha Hk Hm. unfold Spelling.decl_result, convert_opt. rewrite Ha, Hk.
+    intros Ha Hk Hm Hnf. unfold Spelling.decl_result, convert_opt, is_func in *. rewrite Ha, Hk.
     destruct (pyeval (d_ty d)) as [o|x]; [|reflexivity]. cbn [bind].
     assert (HI : match o with OFieldInst f => init_default re_match e f None | _ => Ok tt end = Ok tt)
       by (destruct o; reflexivity).
-    rewrite HI. cbn [bind]. destruct (tli_f o) as [[f|]|y]; cbn [bind]; try reflexivity.
+    rewrite HI, (annot_obj_nofunc o Hnf). cbn [bind]. destruct (tli_f o) as [[f|]|y]; cbn [bind]; try reflexivity.
     assert (HK : match o with OFieldInst _ => @None pyval | _ => None end = None) by (destruct o; reflexivity).
-    rewrite HK, (eq_default_immutable _ f _ Hm). cbn [andb]. reflexivity.
+    rewrite HK, (eq_default_immutable _ f _ (decl_path_nofunc o Hnf) Hm). cbn [andb]. reflexivity.
   Qed.
 
   Lemma decl_assign_form d :
@@ -1112,6 +1127,7 @@ Section DeclProofs.
   | de_annot d d' :
       d_name d = d_name d' -> d_annot d = true -> d_annot d' = true -> d_kw d = None -> d_kw d' = None ->
       d_eq d = d_eq d' -> eq_immutable (d_eq d) = true -> sp_eq (d_ty d) (d_ty d') ->
+      is_func (d_ty d) = false -> is_func (d_ty d') = false ->
       d_opt d || marks_optional (d_ty d) = d_opt d' || marks_optional (d_ty d') -> decl_eq d d'
   (* a = s  ~  a = s' *)
   | de_assign d d' :
@@ -1127,33 +1143,43 @@ Section DeclProofs.
   | de_default d d' dv :
       d_name d = d_name d' -> d_annot d = true -> d_kw d = None -> d_eq d = Some dv ->
       d_kw d' = Some dv -> d_eq d' = None -> sp_eq (d_ty d) (d_ty d') -> evals_inst (d_ty d') = true ->
-      py_truthy dv = true -> is_mutable_default dv = false ->
-      d_opt d || marks_optional (d_ty d) = d_opt d' -> decl_eq d d'.
+      py_truthy dv = true -> is_mutable_default dv = false -> is_func (d_ty d) = false ->
+      d_opt d || marks_optional (d_ty d) = d_opt d' -> decl_eq d d'
+  (* a: F / a = F  ~  a: F() / a = F()   for a recognised parameterless function F declared `-> Field`, no default *)
+  | de_func d d' f s :
+      d_name d = d_name d' -> d_ty d = TFunc f s -> func_recognised s = true -> d_ty d' = TInst f ->
+      d_kw d = None -> d_kw d' = None -> d_eq d = None -> d_eq d' = None -> d_opt d = d_opt d' -> decl_eq d d'.
 
   Theorem decl_sound d d' : decl_eq d d' -> decl_result d = decl_result d'.
   Proof.
-    induction 1 as [d|d d' _ IH|d d' d'' _ IH1 _ IH2|d d' Hn Ha Ha' Hk Hk' He Hi Hs Ho
+    induction 1 as [d|d d' _ IH|d d' d'' _ IH1 _ IH2|d d' Hn Ha Ha' Hk Hk' He Hi Hs Hnf Hnf' Ho
                     |d d' Hn Ha Ha' Hk Hk' Hs Hf Hf' Ho|d d' Hn Ha Ha' Hk Hk' He Hs Hf Hf' Ho
-                    |d d' dv Hn Ha Hk He Hk' He' Hs Hi Ht Hm Ho].
+                    |d d' dv Hn Ha Hk He Hk' He' Hs Hi Ht Hm Hnf Ho
+                    |d d' f s Hn Hty Hr Hty' Hk Hk' He He' Ho].
     - reflexivity.
     - symmetry. exact IH.
     - congruence.
     - assert (Hi' : eq_immutable (d_eq d') = true) by (rewrite <- He; exact Hi).
-      rewrite (decl_annot_form d Ha Hk Hi), (decl_annot_form d' Ha' Hk' Hi'), (convert_opt_equiv _ _ Hs), He.
+      rewrite (decl_annot_form d Ha Hk Hi Hnf), (decl_annot_form d' Ha' Hk' Hi' Hnf'), (convert_opt_equiv _ _ Hs), He.
       unfold mk_fres. rewrite Hn, Ho. reflexivity.
     - rewrite (decl_assign_form d Ha Hk), (decl_assign_form d' Ha' Hk'), (convert_assign_equiv _ _ Hs Hf Hf').
       unfold mk_fres. rewrite Hn, Ho. reflexivity.
     - assert (Hi : eq_immutable (d_eq d) = true) by (rewrite He; reflexivity).
-      rewrite (decl_annot_form d Ha Hk Hi), (decl_assign_form d' Ha' Hk'), He.
+      rewrite (decl_annot_form d Ha Hk Hi (fieldy_nofunc _ Hf)), (decl_assign_form d' Ha' Hk'), He.
       rewrite <- (convert_assign_annot _ Hf), (convert_assign_equiv _ _ Hs Hf Hf').
       rewrite (marks_optional_fieldy _ Hf). unfold mk_fres. rewrite Hn, Ho.
       destruct (convert_assign (d_ty d')) as [[f|]|x]; reflexivity.
     - unfold evals_inst in Hi. destruct (pyeval (d_ty d')) as [[]|x] eqn:Hp; try discriminate.
       assert (Hi2 : eq_immutable (d_eq d) = true) by (rewrite He; cbn [eq_immutable]; rewrite Hm; reflexivity).
-      rewrite (decl_kw_form d' dv f Hk' He' Ht Hp), (decl_annot_form d Ha Hk Hi2), (convert_opt_equiv _ _ Hs), He.
+      rewrite (decl_kw_form d' dv f Hk' He' Ht Hp), (decl_annot_form d Ha Hk Hi2 Hnf), (convert_opt_equiv _ _ Hs), He.
       unfold convert_opt. rewrite Hp. cbn [bind tli_f tli opt_inst inst]. cbn [eq_simple].
       unfold mk_fres. rewrite Hn, Ho, orb_false_r.
       destruct (try_default re_match e f dv) as [[]|x]; reflexivity.
+    - unfold Spelling.decl_result. rewrite Hty, Hty', Hk, Hk', He, He'. cbn [pyeval bind init_default].
+      destruct (d_annot d), (d_annot d'); cbn [annot_obj assign_obj tli_f tli opt_inst inst bind];
+        rewrite Hr; cbn [bind Spelling.eq_default andb marks_optional pyeval fieldy_obj negb];
+        rewrite Hn, Ho; unfold marks_optional; cbn [pyeval fieldy_obj negb andb tli_f tli bind opt_inst];
+        rewrite ?orb_false_r; reflexivity.
   Qed.
 
   Theorem class_sound ds ds' : Forall2 decl_eq ds ds' -> class_result ds = class_result ds'.
@@ -1198,7 +1224,7 @@ Lemma src_rules_today :
   typing_optional_rule = OptIfAnyOfIsOptional /\ anyof_optional_rule = IsOptIfSomeNoneField /\
   apply_default_rule = ApplyIfNoTruthyDefault /\ required_rule = ReqUnlessDefaultOrOptional /\
   (init_default_rule = InitDefaultIfTruthy \/ init_default_rule = InitDefaultIfNotNone) /\
-  future_rule <> FutureUnrecognised /\
+  future_rule <> FutureUnrecognised /\ func_return_rule = FuncHintsResolved /\
   (forall l, is_mutable_default (PList l) = true) /\ (forall l, is_mutable_default (PDict l) = true) /\
   (forall l, is_mutable_default (PSet false l) = true).
 Proof.
@@ -1216,4 +1242,67 @@ Proof.
                 [(60%Z, {| d_name := s2p "a"; d_annot := true; d_ty := TName (s2p "int"); d_eq := None; d_kw := None;
                            d_opt := false |})]).
   vm_compute in H. discriminate H.
+Qed.
+
+(* ------------------------------------------------------------------ the function-returning-a-Field spelling *)
+(* with the recogniser read from the source today (get_type_hints), a string return annotation is resolved:
+   EVERY parameterless function declared `-> Field` / `-> "Field"` is recognised *)
+Lemma func_recognised_today s : func_recognised s = true.
+Proof. destruct s; reflexivity. Qed.
+
+Lemma func_annot f s : func_recognised s = true -> convert_annot (TFunc f s) = convert_annot (TInst f).
+Proof. intros H. unfold convert_annot. cbn [pyeval bind annot_obj]. rewrite H. reflexivity. Qed.
+
+Lemma func_assign f s : func_recognised s = true -> convert_assign (TFunc f s) = convert_assign (TInst f).
+Proof. intros H. unfold convert_assign. cbn [pyeval bind assign_obj]. rewrite H. reflexivity. Qed.
+
+Lemma func_sub f s : func_recognised s = true -> convert_sub (TFunc f s) = convert_sub (TInst f).
+Proof. intros H. unfold convert_sub. cbn [pyeval bind getitem_conv]. rewrite H. reflexivity. Qed.
+
+(* a function that is NOT recognised (a string return annotation read raw) is not a field anywhere: the annotation is
+   ignored, the attribute stays a method, Cls[F] raises TypeError *)
+Lemma func_unrecognised f s :
+  func_recognised s = false ->
+  convert_annot (TFunc f s) = Ok None /\ convert_assign (TFunc f s) = Ok None /\ convert_sub (TFunc f s) = Raise TypeError.
+Proof.
+  intros H. unfold convert_annot, convert_assign, convert_sub. cbn [pyeval bind annot_obj assign_obj getitem_conv].
+  rewrite H. auto.
+Qed.
+
+(* arguments of Cls[...] are converted one by one by FieldMeta.__getitem__ *)
+Definition sub_arg_rel (a b : tyexpr) : Prop :=
+  match pyeval a, pyeval b with
+  | Ok o, Ok o' => getitem_conv o = getitem_conv o'
+  | Raise x, Raise y => x = y
+  | _, _ => False
+  end.
+
+Lemma sub_pointwise c l l' : Forall2 sub_arg_rel l l' -> pyeval (TSub c l) = pyeval (TSub c l').
+Proof.
+  intros H. rewrite !pyeval_sub.
+  assert (HM : match mapM pyeval l, mapM pyeval l' with
+               | Ok os, Ok os' => mapM getitem_conv os = mapM getitem_conv os'
+               | Raise x, Raise y => x = y
+               | _, _ => False
+               end).
+  { induction H as [|a b t t' Hab _ IH]; [reflexivity|]. cbn [mapM]. unfold sub_arg_rel in Hab.
+    destruct (pyeval a) as [o|x], (pyeval b) as [o'|y]; try tauto; cbn [bind]; try exact Hab.
+    destruct (mapM pyeval t) as [os|x], (mapM pyeval t') as [os'|y]; try tauto; cbn [bind mapM]; try exact IH.
+    rewrite Hab, IH. reflexivity. }
+  destruct (mapM pyeval l) as [os|x], (mapM pyeval l') as [os'|y]; try tauto; cbn [bind]; try congruence.
+  unfold subscript. destruct (classify c); try reflexivity; rewrite HM; reflexivity.
+Qed.
+
+Lemma sub_arg_refl a : sub_arg_rel a a.
+Proof. unfold sub_arg_rel. destruct (pyeval a); reflexivity. Qed.
+
+(* Cls[.., F, ..] = Cls[.., F(), ..] at any argument position, for every class that takes [...] *)
+Lemma func_in_sub c l0 f s l2 :
+  func_recognised s = true -> pyeval (TSub c (l0 ++ TFunc f s :: l2)) = pyeval (TSub c (l0 ++ TInst f :: l2)).
+Proof.
+  intros H. apply sub_pointwise. induction l0 as [|x t IH]; cbn [app].
+  - constructor.
+    + unfold sub_arg_rel. cbn [pyeval getitem_conv]. rewrite H. reflexivity.
+    + clear. induction l2; constructor; auto using sub_arg_refl.
+  - constructor; [apply sub_arg_refl|exact IH].
 Qed.
